@@ -51,8 +51,7 @@ ALLOWED_ASSIGN = {
 }
 
 
-def r4_who_may_assign(ctx, rep):
-    R = 'C13.R4'
+def r4_who_may_assign(ctx, rep, R='C13.R4'):
     m = ctx.model
     n = 0
     for fi in m.all_functions():
